@@ -101,9 +101,9 @@ pub(crate) mod kani_verif {
     }
     // @h name=c13_to_l1 props=C13,C03 tier=quick kind=proved funcs=CompressedUsedLeafsIndexes::to contract="to(c)[i]==digit_i(c) for all u64 c, all height lists of length 1"
     to_harness!(c13_to_l1, 1);
-    // @h name=c13_to_l2 props=C13,C03! tier=quick kind=proved funcs=CompressedUsedLeafsIndexes::to contract="to(c)[i]==digit_i(c), length 2"
+    // @h name=c13_to_l2 props=C13,C03!,C07!,C01! tier=quick kind=proved funcs=CompressedUsedLeafsIndexes::to contract="to(c)[i]==digit_i(c), length 2"
     to_harness!(c13_to_l2, 2);
-    // @h name=c13_to_l3 props=C13,C03! tier=quick kind=proved funcs=CompressedUsedLeafsIndexes::to contract="to(c)[i]==digit_i(c), length 3"
+    // @h name=c13_to_l3 props=C13,C03!,C07!,C01! tier=quick kind=proved funcs=CompressedUsedLeafsIndexes::to contract="to(c)[i]==digit_i(c), length 3"
     to_harness!(c13_to_l3, 3);
     // @h name=c13_to_l4 props=C13,C03 tier=quick kind=proved funcs=CompressedUsedLeafsIndexes::to contract="to(c)[i]==digit_i(c), length 4"
     to_harness!(c13_to_l4, 4);
@@ -333,7 +333,7 @@ pub(crate) mod kani_verif {
     }
     // @h name=c08_root_seed_n32 props=C08,C09,C03,C01 tier=thorough kind=proved cfg=w8 funcs=ReferenceImplPrivateKey::generate_root_seed_and_lms_tree_identifier contract="3 hash calls on the hash-sigs top-seed pre-images; (seed, I) = (out1, out2[..16]); depends only on the n stored seed bytes; every seed, every hash function; n=32"
     rec_harness!(c08_root_seed_n32, check_root_seed::<32>(), 36);
-    // @h name=c08_root_seed_n24 props=C08,C09!,C03,C01! tier=quick kind=proved cfg=w8 funcs=ReferenceImplPrivateKey::generate_root_seed_and_lms_tree_identifier contract="same, n=24 (8 backing bytes beyond the seed must not influence the result)"
+    // @h name=c08_root_seed_n24 props=C08,C09!,C03,C01!,C07! tier=quick kind=proved cfg=w8 funcs=ReferenceImplPrivateKey::generate_root_seed_and_lms_tree_identifier contract="same, n=24 (8 backing bytes beyond the seed must not influence the result)"
     rec_harness!(c08_root_seed_n24, check_root_seed::<24>(), 36);
     // @h name=c08_root_seed_n16 props=C08,C09,C03,C01 tier=extended kind=proved cfg=w8 funcs=ReferenceImplPrivateKey::generate_root_seed_and_lms_tree_identifier contract="same, n=16"
     rec_harness!(c08_root_seed_n16, check_root_seed::<16>(), 36);
@@ -359,7 +359,7 @@ pub(crate) mod kani_verif {
         assert!(c.len() == N && c.as_slice() == &R::<N>::out(2)[..N], "randomizer = output");
         kani::cover!(q == 0x01020304, "non-trivial q reachable");
     }
-    // @h name=c08_child_seed_n32 props=C08,C09!,C03!,C07! tier=quick kind=proved cfg=w8 funcs=generate_child_seed_and_lms_tree_identifier;generate_signature_randomizer contract="child (seed, I) = H(I||q||0xfffe||0xff||seed), H(I||q||0xffff||0xff||seed)[..16]; randomizer C = H(I||q||0xfffd||0xff||seed); every parent seed/I/q, every hash function, n=32"
+    // @h name=c08_child_seed_n32 props=C08,C09!,C03!,C07!,C01! tier=quick kind=proved cfg=w8 funcs=generate_child_seed_and_lms_tree_identifier;generate_signature_randomizer contract="child (seed, I) = H(I||q||0xfffe||0xff||seed), H(I||q||0xffff||0xff||seed)[..16]; randomizer C = H(I||q||0xfffd||0xff||seed); every parent seed/I/q, every hash function, n=32"
     rec_harness!(c08_child_seed_n32, check_child_and_randomizer::<32>(), 36);
     // @h name=c08_child_seed_n24 props=C08,C09,C03,C07 tier=extended kind=proved cfg=w8 funcs=generate_child_seed_and_lms_tree_identifier;generate_signature_randomizer contract="same, n=24"
     rec_harness!(c08_child_seed_n24, check_child_and_randomizer::<24>(), 36);
@@ -448,7 +448,7 @@ pub(crate) mod kani_verif {
         }
         kani::cover!(true, "reachable");
     }
-    // @h name=c08_params_roundtrip_l8 props=C08,C13!,C01! tier=quick kind=proved cfg=default funcs=CompressedParameterSet::from;CompressedParameterSet::to contract="to(from(list)) == list and byte layout, every 8-level list"
+    // @h name=c08_params_roundtrip_l8 props=C08,C13!,C01!,C07! tier=quick kind=proved cfg=default funcs=CompressedParameterSet::from;CompressedParameterSet::to contract="to(from(list)) == list and byte layout, every 8-level list"
     rec_harness!(c08_params_roundtrip_l8, check_param_roundtrip::<8>(), 36);
     // @h name=c08_params_roundtrip_l5 props=C08,C13,C01 tier=quick kind=proved cfg=default funcs=CompressedParameterSet::from;CompressedParameterSet::to contract="same, every 5-level list"
     rec_harness!(c08_params_roundtrip_l5, check_param_roundtrip::<5>(), 36);
